@@ -1,5 +1,19 @@
 """C05 Layout preservation and edit locality (only the structural clauses; see DESIGN.md section 3, C05)"""
-from . import genrules, plumbing
+from . import genrules, plumbing, mir, sym, diag
+
+CURSOR_FNS = ("tokenizer::tokenize_core", "tokenizer::handle_a2ml", "tokenizer::find_block_comment_end", "tokenizer::find_string_end", "tokenizer::count_newlines")
+
+
+def cursor_table(prog):
+    A = sym.Analyzer(prog, opaque=[r"tokenizer::.*", r"loader::.*", r"a2ml::.*"])
+    out = {}
+    for fid in CURSOR_FNS:
+        rows = diag.cursor_rows(prog, A, fid)
+        rows.sort(key=lambda r: (r[0], r[1]))
+        if rows:
+            out[fid] = rows
+    return out
+
 
 
 def run(chk):
@@ -12,4 +26,5 @@ def run(chk):
     genrules.expansion_diffs(chk, "R05-shipped", lambda k: ("[stringify]" in k) or "[new]" in k,
                              "generated stringify/new items identical (canonical form) to the generator's output")
     plumbing.r05_plumb(chk)
+    diag.compare(chk, "R05-cursor", "cursor", cursor_table(mir.prog()), "steps of the tokenizer's scan position / line counter with their control predicates (which bytes end a token, what is trimmed before /end A2ML), compared with the reviewed table", floor=29)
     chk.assumptions += ["not decided: that every token lands on its input line, and edit locality (line arithmetic over runtime counts)"]
